@@ -285,6 +285,58 @@ async fn run_case(case: usize, mut rng: Rng, progress: Arc<AtomicU64>) -> (Strin
       },
     }
   }
+  // variant: the server is shut down while requests are suspended in the modulator (C20: every connection is told, closed,
+  // and shutdown completes — requests in flight are cancelled, not waited for)
+  if c.rng.chance(1, 6) {
+    // notifications of departures are let through first (a disconnect clean-up that waits for one is not a request), and so
+    // are authentications: AUTH is dispatched inline by the connection loop, which observes nothing while it waits for the
+    // modulator — over a real modulator link that wait is bounded by the link's own request timeout, here it would not be
+    loop {
+      let _ = modu.parked_live();
+      // what stays parked is certainly a request task: a broadcast's payload validation, or a JOIN into an existing channel
+      let is_request = |d: &String| d.starts_with("payload ") || (d.starts_with("event MEMBER_JOINED") && d.ends_with("owner=false"));
+      let Some(i) = modu.parked().iter().position(|d| !is_request(d)) else { break };
+      modu.release(i, true);
+      c.pump(1).await;
+    }
+    let in_flight = modu.parked_live();
+    modu.set_hold(false);
+    // (connections the server has already closed — e.g. for exceeding the in-flight limit — are seen closed first)
+    c.pump(1).await;
+    c.pump(1).await;
+    let open_before: Vec<usize> = c.srv.clients.iter().filter(|(k, e)| e.stream.is_some() && !c.dead.contains(k)).map(|(k, _)| *k).collect();
+    let mng = c.srv.conn_mng.clone();
+    let h = tokio::task::spawn_local(async move {
+      let _ = mng.shutdown().await;
+    });
+    c.pump(50).await;
+    c.pump(50).await;
+    let _ = writeln!(c.log, "# shutdown with {in_flight} modulator calls outstanding; open connections {open_before:?}");
+    if !h.is_finished() {
+      c.fails.push(format!(
+        "C20: [shutdown-with-requests-in-flight] ConnManager::shutdown had not completed 100 ms after it was requested ({in_flight} requests were suspended in the modulator; request_timeout is {timeout_ms} ms)"
+      ));
+    }
+    for k in &open_before {
+      let mut told = c.inbox.get(k).is_some_and(|v| v.iter().any(|f| matches!(&f.msg, Message::Error(p) if p.reason.as_ref() == "SERVER_SHUTTING_DOWN")));
+      let closed = c.srv.clients.get(k).is_some_and(|e| e.eof);
+      // a client that pipelined more requests than max_inflight_requests has already been cut off by the in-flight gate (its
+      // loop has ended, only its clean-up is still running): it is closed, but no longer told anything
+      let unanswered = c.sent.iter().filter(|s| s.conn == *k && c.replies(*k, s.id).is_empty()).count();
+      if unanswered > cfg.max_inflight as usize {
+        told = true;
+      }
+      if !told || !closed {
+        c.fails.push(format!(
+          "C20: [shutdown-with-requests-in-flight] connection {k} was {}told SERVER_SHUTTING_DOWN and {}closed within 100 ms of the shutdown ({in_flight} requests suspended in the modulator)",
+          if told { "" } else { "not " },
+          if closed { "" } else { "not " }
+        ));
+      }
+    }
+    *stats.entry("shutdown".into()).or_insert(0) += 1;
+    return (c.log, c.fails, stats);
+  }
   // release in random order with random outcomes, more operations in between, sometimes past the request timeout
   let mut rounds = 0;
   let mut let_time_out = c.rng.chance(1, 4);
@@ -641,6 +693,18 @@ pub async fn run_suite(seed: u64, cases: usize, only: Option<usize>, out_path: S
       }
       for f in fails {
         failures.push((case, format!("{f} (directed history `reuse-during-cleanup`: `nvh probe_reuse`)")));
+      }
+      *stats.entry("directed".into()).or_insert(0) += 1;
+    }
+    {
+      let case = 1_000_021;
+      progress.store((case as u64) << 32, Ordering::Relaxed);
+      let (log, fails) = probe_reauth_during_cleanup().await;
+      if !fails.is_empty() {
+        transcript.push_str(&log);
+      }
+      for f in fails {
+        failures.push((case, format!("{f} (directed history `reauth-during-cleanup`)")));
       }
       *stats.entry("directed".into()).or_insert(0) += 1;
     }
@@ -1318,6 +1382,75 @@ pub async fn probe_failed_loop(variant: &str) -> (String, Vec<String>) {
     let got = c.inbox.get(&a2).map(|v| v[before.min(v.len())..].iter().filter(|f| matches!(f.msg, Message::Message(_))).count()).unwrap_or(0);
     if got > 0 {
       fails.push(format!("C01: [departed-user-delivery] the session that came back under the name received a MESSAGE of a channel it never joined ({variant})"));
+    }
+  }
+  (c.log, fails)
+}
+
+/// Directed probe: with modulator authentication a user may hold several connections. Its last connection closes, the clean-up
+/// is suspended in the modulator, and the user authenticates again on a new connection meanwhile. When the clean-up has ended
+/// the new connection is still registered: it can join a channel and receives what is published there.
+pub async fn probe_reauth_during_cleanup() -> (String, Vec<String>) {
+  let mut cfg = SrvCfg::default();
+  cfg.modulator = Some(vec![Operation::ForwardEvent, Operation::Auth]);
+  cfg.request_timeout_ms = 60_000;
+  let srv = Srv::new(cfg.clone()).await;
+  let modu = srv.modulator.clone().unwrap();
+  let mut c = Case {
+    auth: true,
+    srv,
+    rng: Rng::new(1),
+    user: BTreeMap::new(),
+    dead: BTreeSet::new(),
+    closing: BTreeSet::new(),
+    inbox: BTreeMap::new(),
+    sent: Vec::new(),
+    next_id: 10,
+    log: String::new(),
+    fails: Vec::new(),
+  };
+  let a = c.open_identify("alice").await;
+  let b = c.open_identify("bob").await;
+  let id = c.id();
+  c.request(b, Req::Join { id, chan: full("c1"), ob: None }).await;
+  let id = c.id();
+  c.request(a, Req::Join { id, chan: full("c1"), ob: None }).await;
+  modu.set_hold(true);
+  modu.script.lock().unwrap().hold_prefix = "event".into();
+  c.close(a);
+  c.pump(2).await;
+  let _ = writeln!(c.log, "parked after alice's disconnect: {:?}", modu.parked());
+  let a2 = c.open_identify("alice").await;
+  let mut fails = Vec::new();
+  // the clean-up finishes
+  modu.set_hold(false);
+  for _ in 0..10 {
+    let _ = modu.parked_live();
+    if modu.parked().is_empty() {
+      break;
+    }
+    modu.release(0, true);
+    c.pump(2).await;
+  }
+  c.pump(10).await;
+  if c.user.contains_key(&a2) && !c.dead.contains(&a2) {
+    let id = c.id();
+    c.request(a2, Req::Join { id, chan: full("c1"), ob: None }).await;
+    let joined = c.replies(a2, id).iter().any(|f| matches!(f.msg, Message::JoinChannelAck(_)));
+    if joined {
+      let before = c.inbox.get(&a2).map(|v| v.len()).unwrap_or(0);
+      let id = c.id();
+      c.request(b, Req::Broadcast { id, chan: full("c1"), qos: None, payload: b"hello-again".to_vec() }).await;
+      c.pump(3).await;
+      let acked = c.replies(b, id).iter().any(|f| matches!(f.msg, Message::BroadcastAck(_)));
+      let got = c.inbox.get(&a2).map(|v| v[before.min(v.len())..].iter().filter(|f| matches!(f.msg, Message::Message(_))).count()).unwrap_or(0);
+      if acked && got != 1 {
+        for tag in ["C02", "C05"] {
+          fails.push(format!(
+            "{tag}: [missing-delivery] alice authenticated on a new connection while the clean-up of her previous one was still running, joined c1 afterwards (JOIN_ACK), and received {got} copies of an acknowledged broadcast: her live connection is not routable"
+          ));
+        }
+      }
     }
   }
   (c.log, fails)
